@@ -17,7 +17,7 @@ OUTSIDE = ("zero-length sub-images in the overlap clause; BIN/HEX/S19 save/load 
            "aligned_start/aligned_length (float division)")
 STUBS = ["BinaryImage.__str__ -> constant (only used to format the overlap error message)"]
 MUST_REACH = ["validate\\..*", "len\\..*", "add\\..*", "upd\\..*"]
-OPTS = {"quick": {"case_timeout_s": 200, "query_timeout_ms": 30000},
+OPTS = {"quick": {"case_timeout_s": 600, "query_timeout_ms": 30000},
         "thorough": {"case_timeout_s": 1500, "query_timeout_ms": 120000, "max_paths": 100000}}
 
 
